@@ -83,7 +83,7 @@ def build_menu():
         ev.append(('resize', fi))
     ev += [('resize_dtype', 1), ('resize_dtype', 2), ('resize_nfrac', 0), ('resize_nfrac', 3), ('resize_nfrac', -2), ('resize_nword', 2),
            ('resize_nword', 7), ('resize_signed', True), ('resize_signed', False), ('resize_nint_nfrac', 1, 2), ('resize_nint_nword', 2, 6)]
-    ev += [('like=',), ('like()',), ('Fxp(a)',), ('equal',), ('fxp_like',)]
+    ev += [('like=',), ('like()',), ('Fxp(a)',), ('equal',), ('fxp_like',), ('equal_index',), ('set_val_index_fxp',), ('setitem_fxp',)]
     for op in ('+', '-', '*', '/', '//', '%'):
         for sz in SIZINGS:
             ev.append(('bin', op, sz))
@@ -165,6 +165,19 @@ def apply_event(heap, ev):
         return [t.equal(a), a]
     if k == 'fxp_like':
         return [fx.fxp_like(b, a), a]
+    if k in ('equal_index', 'set_val_index_fxp', 'setitem_fxp'):
+        # write ONE element of a from the (first element of the) other heap object, which may have another format / signedness
+        if not shape:
+            raise Disabled()
+        src = b[(0,) * len(np.shape(b.val))] if np.shape(b.val) else b
+        idx = (0,) * len(shape)
+        if k == 'equal_index':
+            a.equal(src, index=idx)
+        elif k == 'set_val_index_fxp':
+            a.set_val(src, index=idx)
+        else:
+            a[idx] = src
+        return [a, b]
     if k == 'bin':
         a.config.op_sizing = ev[2]
         if ev[1] in ('/', '//', '%') and any(c == 0 for c in codes(b)):
@@ -298,6 +311,9 @@ def saturation(acc, nw):
                     for sgn in (1, -1):
                         for v in mags:
                             one_sat(acc, f, rnd, rt, _dy_of_float(sgn * v), 'float')
+                            if rt in ('ctor', 'set_val'):
+                                one_sat(acc, f, rnd, rt, _dy_of_float(sgn * v), 'arr1.float64')
+                                one_sat(acc, f, rnd, rt, _dy_of_float(sgn * v), 'list')
                         for v in ints:
                             one_sat(acc, f, rnd, rt, (sgn * v, 0), 'int')
 
